@@ -657,8 +657,88 @@ func c13Pairs(c *mc.Ctx) {
 	c.Nontrivial()
 }
 
+// (8) the binary writer's own symbol IDs across the VarUInt/UInt width boundaries: a writer that has
+// defined n local symbols then uses symbol #k as annotation, field name and value; read back by text.
+func c13WriterSIDs(c *mc.Ctx) {
+	n := 300
+	ks := make([]int, 0, 300)
+	for k := 0; k < 300; k++ {
+		ks = append(ks, k)
+	}
+	if c.Pick("table", 2) == 1 {
+		if c.Tier != "thorough" {
+			c.Skip("the 16 500-symbol table is in the thorough tier")
+			return
+		}
+		n = 16500
+		ks = []int{16370, 16371, 16372, 16373, 16374, 16375, 16376, 16377, 16378, 16489}
+	}
+	k := ks[c.Shard("symbol", len(ks))]
+	fixed := c.Pick("fixed-table", 2) == 1
+	name := func(i int) string { return fmt.Sprintf("s%d", i) }
+	c.Case(func() string {
+		return fmt.Sprintf("binary writer (fixed table=%v) with %d local symbols uses symbol #%d (ID %d) as annotation, field name and value", fixed, n, k, 10+k)
+	})
+	c.Class("writer-sids")
+	var buf bytes.Buffer
+	var werr error
+	if p := drive.Safe(func() {
+		var w ion.Writer
+		if fixed {
+			syms := make([]string, n)
+			for i := range syms {
+				syms[i] = name(i)
+			}
+			w = ion.NewBinaryWriterLST(&buf, ion.NewLocalSymbolTable(nil, syms))
+		} else {
+			w = ion.NewBinaryWriter(&buf)
+			w.BeginList()
+			for i := 0; i < n; i++ {
+				w.WriteSymbolFromString(name(i))
+			}
+			w.EndList()
+		}
+		w.Annotation(ion.NewSymbolTokenFromString(name(k)))
+		w.BeginStruct()
+		w.FieldName(ion.NewSymbolTokenFromString(name(k)))
+		w.Annotations(ion.NewSymbolTokenFromString(name(0)), ion.NewSymbolTokenFromString(name(k)))
+		w.WriteSymbolFromString(name(k))
+		w.EndStruct()
+		w.WriteInt(7)
+		werr = w.Finish()
+	}); p != "" {
+		c.Fail("panic", drive.PanicSite(p), "%s", p)
+		return
+	}
+	if werr != nil {
+		c.Fail("unexpected-error", "writer-sids", "writer: %v", werr)
+		return
+	}
+	got, calls, rerr, pan := readBack(buf.Bytes(), nil)
+	c.Step(calls)
+	if failPanic(c, pan) {
+		return
+	}
+	if rerr != nil {
+		c.Fail("unexpected-error", "writer-sids:read", "the writer's own stream does not read back: %v", rerr)
+		return
+	}
+	want := []*rm.Value{rm.StructV(rm.SymV(name(k)).A(name(0), name(k)).F(name(k))).A(name(k)), rm.IntV(7)}
+	if !fixed {
+		got = got[1:]
+	}
+	if df := rm.DiffStreams(want, got); df != "" {
+		c.Fail("value-mismatch", "writer-sids", "wrote %s, read %s: %s", rm.StreamString(want), rm.StreamString(got), df)
+		return
+	}
+	c.Observe(k, n, fixed)
+	c.Nontrivial()
+}
+
 func c13Body(c *mc.Ctx) {
-	switch c.Pick("part", 7) {
+	switch c.Pick("part", 8) {
+	case 7:
+		c13WriterSIDs(c)
 	case 5:
 		c13Containers(c)
 	case 6:
@@ -680,9 +760,9 @@ func init() {
 	mc.Register(&mc.Check{
 		ID:    "C13",
 		Title: "Numbers are never silently truncated, wrapped or rounded",
-		Rule: "seven exhaustive parts on the real code: (1) every integer ±(2^k+d), k<=80, |d|<=2 and every integer in [-2^16,2^16] (thorough: [-2^20,2^20]) carried by ion-go text/binary writers through each Writer entry point, by reference binary with 0/1/2 leading zero bytes and by reference hex text: IntSize never too small, Int64Value/IntValue exact or error, BigIntValue exact; " +
+		Rule: "eight exhaustive parts on the real code: (1) every integer ±(2^k+d), k<=80, |d|<=2 and every integer in [-2^16,2^16] (thorough: [-2^20,2^20]) carried by ion-go text/binary writers through each Writer entry point, by reference binary with 0/1/2 leading zero bytes and by reference hex text: IntSize never too small, Int64Value/IntValue exact or error, BigIntValue exact; " +
 			"(2) the full accessor matrix 13 types x null/non-null x 11 accessors x text/binary: nil for own-type null, usage error for other types; (3) floats: sign x all 2048 exponents x 16 (thorough 256) mantissa patterns around the float32 cut: binary output decoded by the independent decoder and by the Reader is bit-identical, text likewise; " +
-			"(4) ion-go's VarUInt/VarInt/Int encoders composed with its own decoders at every 2^k±2 and 0..299; (5) symbol IDs at VarUInt/UInt boundaries up to 2^32 through a placeholder import (last import slot, first local slot, one past the end) as value, annotation and field name; (6) an integer of every byte length 1..20, both signs, inside a list / sexp / struct / sorted struct (D1 form) / annotation wrapper / struct in a list, so that the container body length runs through every value 2..24, followed by a sibling: read back exactly; (7) every ordered pair of 9 integers around the 64-byte magnitude (2^495..2^1024) written in one batch, at top level and inside one list, by each writer mode and entry point: both read back exactly. " +
+			"(4) ion-go's VarUInt/VarInt/Int encoders composed with its own decoders at every 2^k±2 and 0..299; (5) symbol IDs at VarUInt/UInt boundaries up to 2^32 through a placeholder import (last import slot, first local slot, one past the end) as value, annotation and field name; (6) an integer of every byte length 1..20, both signs, inside a list / sexp / struct / sorted struct (D1 form) / annotation wrapper / struct in a list, so that the container body length runs through every value 2..24, followed by a sibling: read back exactly; (7) every ordered pair of 9 integers around the 64-byte magnitude (2^495..2^1024) written in one batch, at top level and inside one list, by each writer mode and entry point: both read back exactly; (8) a binary writer (growing and fixed table) holding 300 local symbols uses EVERY one of them as annotation, field name and symbol value (IDs 10..309 cross the one-byte VarUInt boundary at 128; thorough: a 16 500-symbol table around ID 16384): read back by text. " +
 			"non-trivial = an ion-go result was compared with exact big-integer/bit arithmetic; distinct = distinct (part, case, observation) digests",
 		Bounds:      map[string]string{"quick": "ints: 131,073 small + 790 boundary x 6 carriers; floats 2 x 2048 x 16", "thorough": "ints 2^21+1 small; floats 2 x 2048 x 256"},
 		Assumptions: []string{"IntValue is documented as int32-ranged; for values in (int32, int64] an exact value or an error are both accepted", "math/big, math.Float64bits trusted"},
